@@ -163,11 +163,30 @@ def q1(chk: core.Check, nmax: int) -> None:
                 break
             if any(v[0] == "sat" for v in verdicts):
                 _, m, w = next(v for v in verdicts if v[0] == "sat")
-                for variant in range(0, 200):
-                    l1, l2 = realise(m, w, L1, variant), realise(m, w, L2, variant)
-                    h1, h2 = real_hash(p1, l1), real_hash(p2, l2)
-                    repro = (h1 == h2) and concrete_canon(p1, l1) != concrete_canon(p2, l2)
-                    if repro:
+                repro = False
+                for attempt in range(2):
+                    for variant in range(0, 200):
+                        l1, l2 = realise(m, w, L1, variant), realise(m, w, L2, variant)
+                        h1, h2 = real_hash(p1, l1), real_hash(p2, l2)
+                        repro = (h1 == h2) and concrete_canon(p1, l1) != concrete_canon(p2, l2)
+                        if repro:
+                            break
+                    if repro or attempt == 1:
+                        break
+                    # the witness relied on a digest order that real xxh64 does not have and offers no literal to vary
+                    # (e.g. all labels empty): ask for a model whose labels are all non-empty and try again
+                    for pc2, w2, (e1, e2) in hash_paths(src, [(p1, L1, "x", False), (p2, L2, "y", False)]):
+                        s2 = z3.Solver()
+                        s2.set("timeout", 120_000)
+                        s2.add(pc2 + w2.cons + w2.injectivity())
+                        s2.add(e1.term == e2.term, z3.Not(iso(p1, L1, 0, p2, L2, 0)))
+                        s2.add([z3.Length(x) >= 1 for x in L1 + L2])
+                        if bound:
+                            s2.add([z3.Length(x) <= bound for x in L1 + L2])
+                        if str(s2.check()) == "sat":
+                            m, w = s2.model(), w2
+                            break
+                    else:
                         break
                 absorbed = any(len(x) >= 16 for x in l1 + l2)
                 sig = "hash-label-absorbs-digest" if absorbed else "hash-collision-short-labels"
@@ -301,15 +320,54 @@ def capture_unique_graph_statements(w0: Any, w1: Any) -> dict[str, Any]:
     return {"insert": ins[0], "group": grp[0], "temp": tt}
 
 
+def window_paths() -> list[tuple[list[Any], Any, Any, Any]]:
+    """The REAL get_time_window executed on symbolic tracked min/max/buffer: -> [(path condition, w0, w1, exception)]"""
+    from tel2puml.otel_to_pv.data_holders.base import DataHolder, get_time_window
+    minT, maxT, buf = z3.Ints("minT maxT buf")
+    base = [minT >= 0, maxT >= 0, minT <= 2**62, maxT <= 2**63 - 1, buf >= 0, buf <= 10**6]
+    H = type("H", (), {"min_timestamp": DataHolder.min_timestamp, "max_timestamp": DataHolder.max_timestamp})
+
+    def go() -> Any:
+        h = object.__new__(H)
+        h._min_timestamp = X.SymInt(minT, 2**60, 2**61)   # intervals matter only if the code converts to float (see C11)
+        h._max_timestamp = X.SymInt(maxT, 2**60, 2**61)
+        return get_time_window(X.SymInt(buf, 0, 1000), h)
+    X.FLOAT_EVENTS.clear()
+    out = []
+    for pc, res, exc in X.explore(go, base):
+        out.append((pc, None if exc else res[0], None if exc else res[1], exc))
+    return out
+
+
 def q2(chk: core.Check, N: int) -> None:
-    w0s, w1s = z3.Ints("w0 w1")
-    st = capture_unique_graph_statements(X.SymInt(w0s), X.SymInt(w1s))
+    minT, maxT, buf = z3.Ints("minT maxT buf")
+    dmin = z3.If(minT > maxT, z3.IntVal(0), minT)
+    dmax = z3.If(maxT < minT, z3.IntVal(9223372036854775807), maxT)
+    for pi, (pc, w0v, w1v, exc) in enumerate(window_paths()):
+        if exc is not None:
+            if isinstance(exc, ValueError) and "time buffer is too large" in str(exc):
+                continue
+            chk.unknown(f"q2.window path {pi}", "symexec", 0.0, f"get_time_window raised {type(exc).__name__}: {exc}")
+            continue
+        q2_path(chk, N, pi, pc, w0v, w1v, dmin + buf * 60 * 10**9, dmax - buf * 60 * 10**9)
+    if X.FLOAT_EVENTS:
+        chk.bounds["q2"] += "; the window computation used float arithmetic: tracked min/max in [2**60, 2**61], buffer <= 1000 min only"
+
+
+def q2_path(chk: core.Check, N: int, pi: int, pc: list[Any], w0v: Any, w1v: Any, w0s: Any, w1s: Any) -> None:
+    """w0v/w1v: what the real get_time_window returned on this path; w0s/w1s: the documented window"""
+    st = capture_unique_graph_statements(w0v, w1v)
     nodes = S.SymTable("nodes", NCOLS, N, "s", nullable=("parent_event_id",))
     alg = S.Z3Alg()
     ev = S.Evaluator(S.z3_db([nodes], alg))
     sel = S._unwrap_select(st["insert"].select)
     rel = ev.select(sel, {})
     pre = [nodes.val[i]["event_id"] != nodes.val[j]["event_id"] for i in range(N) for j in range(i + 1, N)]
+    for i in range(N):
+        for c in ("start_timestamp", "end_timestamp"):
+            pre += [nodes.val[i][c] >= 0, nodes.val[i][c] <= 2**62]
+        for c in ("job_id", "event_id", "parent_event_id"):
+            pre += [nodes.val[i][c] >= 0, nodes.val[i][c] <= 50]
     bad = []
     for i in range(N):
         inwin = z3.Or([z3.And(nodes.present[j], nodes.val[j]["job_id"] == nodes.val[i]["job_id"],
@@ -321,12 +379,12 @@ def q2(chk: core.Check, N: int) -> None:
         bad.append(z3.Or(hits) != want)
     s = z3.Solver()
     s.set("timeout", 120_000)
-    s.add(pre + alg.side)
+    s.add(pre + alg.side + list(pc))
     s.add(z3.Or(bad))
     t0 = time.time()
     r = str(s.check())
     dt = time.time() - t0
-    nm = f"q2.candidate-roots N={N}"
+    nm = f"q2.candidate-roots N={N} window-path={pi}"
     if r == "unsat":
         chk.held(nm, "z3", dt)
     elif r == "sat":
@@ -338,12 +396,14 @@ def q2(chk: core.Check, N: int) -> None:
                 rows.append({"job_id": f"j{g('job_id')}", "event_id": f"e{g('event_id')}", "start": g("start_timestamp"),
                              "end": g("end_timestamp"),
                              "parent": None if z3.is_true(m.eval(nodes.null[i]["parent_event_id"], model_completion=True)) else f"e{g('parent_event_id')}"})
-        win = (m.eval(w0s, model_completion=True).as_long(), m.eval(w1s, model_completion=True).as_long())
-        viol, what = replay_roots(rows, win)
-        chk.counterexample(nm, "z3", dt, sig="candidate-roots", what=what, replay={"kind": "roots", "rows": rows, "window": list(win)},
+        mv = {k: m.eval(z3.Int(k), model_completion=True).as_long() for k in ("minT", "maxT", "buf")}
+        viol, what = replay_roots(rows, mv)
+        chk.counterexample(nm, "z3", dt, sig="candidate-roots", what=what, replay={"kind": "roots", "rows": rows, "tracked": mv},
                            reproduced=viol)
     else:
         chk.unknown(nm, "z3", dt, f"solver answered {r}")
+    if pi != 0:
+        return
     # representative selection: one job id per (name, hash) group, belonging to the group
     from tel2puml.otel_to_pv.data_holders.sql_data_holder.data_model import JobHash
     jh = S.SymTable("job_hashes", ["job_id", "job_name", "job_hash"], N, "h")
@@ -394,26 +454,35 @@ def q2(chk: core.Check, N: int) -> None:
                               "member job id per existing (name, hash) class (bare column = arbitrary member)"})
 
 
-def replay_roots(rows: list[dict[str, Any]], win: tuple[int, int]) -> tuple[bool, str]:
+def replay_roots(rows: list[dict[str, Any]], tracked: dict[str, int]) -> tuple[bool, str]:
     import sqlalchemy as sa
     from vlib import sqlvalidate as V
+    from tel2puml.otel_to_pv.data_holders.base import get_time_window
     from tel2puml.otel_to_pv.data_holders.sql_data_holder import sql_dataholder as sdh
     from tel2puml.otel_to_pv.data_holders.sql_data_holder.data_model import NodeModel
     V.forget_temp_table()
-    h = V.real_holder(2, 0)
+    h = V.real_holder(2, tracked["buf"])
     with h.session as s:
         for r in rows:
             s.add(NodeModel(job_name="n", job_id=r["job_id"], event_type="T", event_id=r["event_id"], start_timestamp=r["start"],
                             end_timestamp=r["end"], application_name="a", parent_event_id=r["parent"]))
         s.commit()
-    tt = sdh.create_temp_table_of_root_nodes_in_time_window(win, h)
+    h._min_timestamp, h._max_timestamp = tracked["minT"], tracked["maxT"]
+    try:
+        tt = sdh.create_temp_table_of_root_nodes_in_time_window(get_time_window(tracked["buf"], h), h)
+    except ValueError as e:
+        V.forget_temp_table()
+        h.engine.dispose()
+        return False, f"real code: {e}"
     with h.session as s:
         got = sorted(x[0] for x in s.execute(sa.select(tt.c.event_id)).all())
     V.forget_temp_table()
     h.engine.dispose()
-    inwin = {r["job_id"] for r in rows if win[0] <= r["start"] <= win[1] or win[0] <= r["end"] <= win[1]}
+    lo = (0 if tracked["minT"] > tracked["maxT"] else tracked["minT"]) + tracked["buf"] * 60 * 10**9
+    hi = (9223372036854775807 if tracked["maxT"] < tracked["minT"] else tracked["maxT"]) - tracked["buf"] * 60 * 10**9
+    inwin = {r["job_id"] for r in rows if lo <= r["start"] <= hi or lo <= r["end"] <= hi}
     want = sorted(r["event_id"] for r in rows if r["parent"] is None and r["job_id"] in inwin)
-    return got != want, f"candidate roots {got}, rule gives {want} (window {win}, rows {rows})"
+    return got != want, f"candidate roots {got}, rule gives {want} (window [{lo},{hi}], tracked {tracked}, rows {rows})"
 
 
 def replay_groups(rows: list[dict[str, Any]]) -> tuple[bool, str]:
@@ -532,7 +601,7 @@ def replay_file(path: str) -> int:
         print(h1, h2)
         return 1 if h1 != h2 else 0
     if k == "roots":
-        v, what = replay_roots(rec["rows"], tuple(rec["window"]))
+        v, what = replay_roots(rec["rows"], rec["tracked"])
         print(what)
         return 1 if v else 0
     if k == "groups":
